@@ -27,6 +27,30 @@ def partsOf (hist : Bytes) : Option (Bytes × List Tree × Value) :=
   | some (t, d), some v => some (t, d, v)
   | _, _ => none
 
+/-- every string leaf of the data (untrusted strings and the contents of typed values) -/
+partial def strLeaves : Value → List Bytes
+  | .str b => [b]
+  | .safe _ b => [b]
+  | .ptr v => strLeaves v
+  | .list vs => vs.toList.flatMap strLeaves
+  | .map kvs => kvs.toList.flatMap fun p => strLeaves p.2
+  | _ => []
+
+/-- names that follow a '.' somewhere in the template text (over-approximation of the fields the template reads) -/
+def usedKeys : Bytes → List Bytes
+  | [] => []
+  | 46 :: t =>
+    let nm := t.takeWhile isAlnum
+    if nm.isEmpty then usedKeys t else nm :: usedKeys t
+  | _ :: t => usedKeys t
+
+/-- the string leaves of the top-level fields the template mentions -/
+def usedLeaves (tmpl : Bytes) (v : Value) : List Bytes :=
+  let ks := usedKeys tmpl
+  match v with
+  | .map kvs => kvs.toList.flatMap fun p => if ks.contains (B p.1) then strLeaves p.2 else []
+  | v => strLeaves v
+
 /-- wire form of a value (inverse of `parseValue`) -/
 partial def wireOf : Value → String
   | .str b => "s " ++ hexOf b
@@ -88,9 +112,9 @@ def oracle (op : String) (a : List Bytes) (real : List String) : Option String :
       | _, _ => "pass")
   | "tmpl.c02", [hist] =>
     some (match real, partsOf hist with
-      | ["ok", o], some (t, _, _) =>
+      | ["ok", o], some (t, _, v) =>
         match unhex o with
-        | some out => Oracle.C01.c02 t out
+        | some out => Oracle.C01.c02 t out (usedLeaves t v)
         | none => "fail:unparsable-real-result"
       | _, _ => "pass")
   | "tmpl.c03", [form, e, at', pre, tag, contents, _h1, _h2] =>
